@@ -428,14 +428,15 @@ def run_cases(ctx, cases, what):
         ctx.report(sig, shown, replay=case)
 
 
-# Input classes (stratum tags computed by TLC, Paths!HeldTag) whose law failures on the UNCHANGED code are awaiting a decision
-# (defect to repair or known finding): their cases are generated, executed and judged like all others, the failures are
-# listed as HELD-STRATUM lines and in the evidence (held_strata) instead of being reported.  VERIF_C13_HELD= (empty)
-# reports them as violations.
-#   ROOT_RESPELLED_EMPTYREL: the folder / new folder is the root written with two or more separators ("//", "/\\", "\\\\") and the
-#   relative part has no names: normalize_path_separators("//") == "", so is_subpath("//", "/", strict=True) == "/" (not
-#   False) and replace_path("/a", "/a", "//") == "" (not "/").
-HELD = ()          # ROOT_RESPELLED_EMPTYREL was held until the defect behind it was repaired (repo commit 007fea6)
+# Input classes (stratum tags computed by TLC) whose law failures on the UNCHANGED code are awaiting a decision (defect to
+# repair or known finding): their cases are generated, executed and judged like all others, the failures are listed as
+# HELD-STRATUM lines and in the evidence (held_strata) instead of being reported.  VERIF_C13_HELD= (empty) reports them as
+# violations.
+#   DRIVE_LETTER_FOLD_GROWS (Paths!DriveTag): win_paths on, case-insensitive, a string whose first name starts with U+0130 ':'
+#   (a "drive" whose letter lower() turns into two characters): normalize_path("\u0130:") == "i\u0307:" but
+#   normalize_path("i\u0307:") == "/i\u0307:" - not idempotent, and paths_match("\u0130:", normalize_path("\u0130:")) is False.
+#   (ROOT_RESPELLED_EMPTYREL (Paths!HeldTag) was held until the defect behind it was repaired, repo commit 007fea6.)
+HELD = ("DRIVE_LETTER_FOLD_GROWS",)
 
 
 def held_strata():
@@ -491,7 +492,8 @@ def bounds(tier):
     YONE: one root as spelled against the bare root of the other side, 16 pairs (same: side 0 spelled; opposite: either side),
     [(lp, lq, ...)]; YBOTH: both roots as spelled (the same spelling number), all 64 pairs, [(lp, lq, lr, ...)];
     EXT: [(kind, lp, lq, lr, alphabet)] - further U / B / T families over alphabets with names that change under lower():
-    U+00C9 (lower: U+00E9) and U+0130 (lower: 'i' U+0307, two characters), in leaf and in folder position."""
+    U+00C9 (lower: U+00E9) and U+0130 (lower: 'i' U+0307, two characters), in leaf and in folder position; S families here take
+    every string p as the folder AS SPELLED (drive paths like "a:/a" included)."""
     a, A, dot, sl, bs, ea, colon = (CODE[x] for x in "aA./\\é:")
     uea, idot, li, cdot = (CODE[x] for x in "É\u0130i\u0307")
     every = tuple(range(1, 8))
@@ -499,12 +501,16 @@ def bounds(tier):
         return dict(U=4, B=(2, 2), T=(1, 1, 1), XALL=(1, 1, 0), XDEEP=[(1, 1, 1), (1, 2, 0), (0, 2, 1)], nlong=40, mc=MC_QUICK,
                     S=[(3, 1, 0, (a, A), (sl, bs, a, A, ea), (), ALL_SPELLS), (1, 1, 1, (a, A), (sl, bs, a, A, ea), (), (1, 2, 3, 7, 12, 13))],
                     YONE=[(1, 1, (a, A), (sl, bs, a, A, ea), (), (1, 2, 3, 6, 7, 12, 13))], YBOTH=[],
-                    EXT=[("U", 4, 0, 0, (sl, A, uea, idot)), ("B", 2, 2, 0, (sl, idot, li, cdot))])
+                    EXT=[("U", 4, 0, 0, (sl, A, uea, idot)), ("B", 2, 2, 0, (sl, idot, li, cdot)),
+                         ("U", 3, 0, 0, (sl, idot, colon)),           # (the held class, win_paths configurations)
+                         ("S", 4, 0, 0, (sl, a, colon))])             # drive PATHS ("a:/a") handed over as folders
     return dict(U=5, B=(3, 2), T=(2, 2, 1), XALL=(1, 1, 1), XDEEP=[(1, 2, 1), (2, 1, 1)], nlong=400, mc=MC_QUICK + MC_THOROUGH,
                 S=[(3, 3, 0, (a, A, dot), every, (sl, bs, a), ALL_SPELLS, (colon,)), (2, 1, 1, (a, A, dot), every, (), ALL_SPELLS, (colon,))],
                 YONE=[(1, 2, (a, A), every, (sl, bs, a, A), ALL_SPELLS)], YBOTH=[(1, 1, 1, (a, A), every, (), ALL_SPELLS)],
                 EXT=[("U", 5, 0, 0, (sl, bs, A, uea, idot)), ("U", 4, 0, 0, (sl, idot, li, cdot, uea, ea)),
-                     ("B", 2, 2, 0, (sl, idot, li, cdot, uea, ea)), ("T", 1, 1, 1, (sl, idot, li, cdot, uea, ea))])
+                     ("B", 2, 2, 0, (sl, idot, li, cdot, uea, ea)), ("T", 1, 1, 1, (sl, idot, li, cdot, uea, ea)),
+                     ("U", 4, 0, 0, (sl, idot, colon, A)), ("B", 2, 2, 0, (sl, idot, colon)),
+                     ("S", 4, 1, 0, (sl, bs, a, colon))])
 
 
 def fam_text(f):
@@ -605,9 +611,9 @@ def run(ctx):
         "folders as spelled (kinds S, Y): the laws are stated for every string that leads with a separator (either one) or, where "
         "win_paths is on, a drive; enumerated: the 14 spellings Paths!Spell of folders with one or two names (long random ones: a "
         "separator put in front of a random string and of its spelling variants)",
-        "held input class %s (law failures listed as HELD-STRATUM, not reported; VERIF_C13_HELD= reports them): %s"
-        % (", ".join(sorted(held_strata())) or "(none)",
-           "the root written with two or more separators and a relative part without names - normalize_path_separators('//') == ''"))
+        "held input class %s (law failures listed as HELD-STRATUM, not reported; VERIF_C13_HELD= reports them): win_paths on, "
+        "case-insensitive, a string whose first name starts with U+0130 ':' - normalize_path is not idempotent there"
+        % (", ".join(sorted(held_strata())) or "(none)"))
 
     # design runs and input enumeration: independent TLC runs, side by side
     todo = plan(b)
@@ -643,7 +649,9 @@ def run(ctx):
             triples = fresh
         by_kind[kind] += cases_for(kind, conv(ta), conv(tb) if tb else C0, triples)
     del seen
-    by_kind["S"], by_kind["Y"] = spelled_cases(ctx, b)
+    spelled = spelled_cases(ctx, b)
+    by_kind["S"] += spelled[0]
+    by_kind["Y"] += spelled[1]
     ctx.extra["families"] = {
         "U": "every string |p|<=%d, 8 configurations" % b["U"],
         "B": "every pair |p|<=%d |q|<=%d, 8 configurations" % b["B"],
